@@ -41,6 +41,15 @@ def _key_reads(expr):
               isinstance(n.func.value, ast.Name)):
             d = n.args[1] if len(n.args) > 1 else ast.Constant(value=None)
             out.append((n.args[0].value, d, n))
+        elif (isinstance(n, ast.Call) and 2 <= len(n.args) <= 3 and
+              isinstance(n.args[0], ast.Name) and
+              isinstance(n.args[1], ast.Constant) and
+              isinstance(n.args[1].value, str) and not (
+                  isinstance(n.func, ast.Attribute) and
+                  n.func.attr in ('get', 'format', 'join'))):
+            # a small accessor helper: helper(json, 'key'[, default])
+            d = n.args[2] if len(n.args) > 2 else 'REQUIRED'
+            out.append((n.args[1].value, d, n))
     return out
 
 
@@ -51,6 +60,15 @@ def _eval_isinstance(ctx, test, K, param):
             isinstance(test.args[0], ast.Name) and test.args[0].id == param \
             and isinstance(test.args[1], ast.Name):
         return K in ctx.prog.subclasses(test.args[1].id)
+    return None
+
+
+def _dict_call(v):
+    """[(key, value)] for dict(k=v, ...) (keywords only)."""
+    if isinstance(v, ast.Call) and isinstance(v.func, ast.Name) and \
+            v.func.id == 'dict' and not v.args and v.keywords and all(
+                kw.arg for kw in v.keywords):
+        return [(kw.arg, kw.value) for kw in v.keywords]
     return None
 
 
@@ -76,12 +94,23 @@ def _local_defs(F, wparam):
         if isinstance(st, ast.For) and isinstance(st.iter, ast.Attribute) \
                 and isinstance(st.iter.value, ast.Name) and \
                 st.iter.value.id == wparam:
+            lv = {x.id for x in ast.walk(st.target)
+                  if isinstance(x, ast.Name)}
             for c in ast.walk(st):
                 if isinstance(c, ast.Call) and isinstance(
                         c.func, ast.Attribute) and c.func.attr == 'append' \
                         and isinstance(c.func.value, ast.Name):
                     local_defs[c.func.value.id] = (st.iter.attr,
                                                    ('per-element',))
+                elif isinstance(c, ast.Call) and any(
+                        isinstance(a, ast.Name) and a.id in lv
+                        for a in c.args):
+                    # accumulator passed along: helper(element, acc)
+                    for a in c.args:
+                        if isinstance(a, ast.Name) and a.id not in lv and \
+                                a.id != wparam:
+                            local_defs[a.id] = (st.iter.attr,
+                                                ('per-element',))
     return local_defs
 
 
@@ -105,7 +134,9 @@ def _writes_for(ctx, K, F=None, depth=0, seen=None):
     for conds, st in paths:
         if isinstance(st, ast.Assign):
             for t in st.targets:
-                if isinstance(t, ast.Name) and isinstance(st.value, ast.Dict):
+                if isinstance(t, ast.Name) and (
+                        isinstance(st.value, ast.Dict) or _dict_call(
+                            st.value) is not None):
                     dictvar.add(t.id)
     local_defs = _local_defs(F, param)
     out = []
@@ -132,6 +163,30 @@ def _writes_for(ctx, K, F=None, depth=0, seen=None):
             for k, v in zip(st.value.keys, st.value.values):
                 if isinstance(k, ast.Constant):
                     out.append((k.value, v, list(gs), F, param, local_defs))
+        # x = dict(k=v, ...) / return dict(k=v, ...)
+        val = getattr(st, 'value', None)
+        dc = _dict_call(val) if isinstance(st, (ast.Assign,
+                                                 ast.Return)) else None
+        if dc is not None:
+            for k, v in dc:
+                out.append((k, v, list(gs), F, param, local_defs))
+        # x.update({...}) / x.update(k=v)
+        if isinstance(st, ast.Expr) and isinstance(st.value, ast.Call) and \
+                isinstance(st.value.func, ast.Attribute) and \
+                st.value.func.attr == 'update' and isinstance(
+                    st.value.func.value, ast.Name) and \
+                st.value.func.value.id in dictvar:
+            c = st.value
+            for a in c.args:
+                if isinstance(a, ast.Dict):
+                    for k, v in zip(a.keys, a.values):
+                        if isinstance(k, ast.Constant):
+                            out.append((k.value, v, list(gs), F, param,
+                                        local_defs))
+            for kw in c.keywords:
+                if kw.arg:
+                    out.append((kw.arg, kw.value, list(gs), F, param,
+                                local_defs))
         # delegation to another writer with the record as first argument
         if isinstance(st, (ast.Return, ast.Assign, ast.Expr)):
             for n in ast.walk(st):
@@ -171,14 +226,32 @@ def r16_1(ctx, rc):
     prog = ctx.prog
     C = R.cache
     reader = ctx.E.func(C + '._operation_from_json')
-    jparam = reader.params[0]
-    # reader: constructor call per record class
+    rfuncs = _cache_helpers(ctx, reader)
+    # reader: constructor call per record class (in the reader or in a
+    # per-class helper it dispatches to)
     ctor = {}
-    for call in prog.calls_in(reader):
-        for g in prog.resolve_call(call, reader):
-            if isinstance(g, Func) and g.is_ctor_call and \
-                    g.cls_for_ctor in R.record_classes:
-                ctor[g.cls_for_ctor] = (call, g)
+    built_in = {}
+    for rf in rfuncs:
+        for call in prog.calls_in(rf):
+            for g in prog.resolve_call(call, rf):
+                if isinstance(g, Func) and g.is_ctor_call and \
+                        g.cls_for_ctor in R.record_classes:
+                    ctor[g.cls_for_ctor] = (call, g, rf)
+                    built_in.setdefault(rf.qualname, set()).add(
+                        g.cls_for_ctor)
+
+    def classes_built(fn, seen=None):
+        seen = seen or set()
+        if fn.qualname in seen:
+            return set()
+        seen.add(fn.qualname)
+        out = set(built_in.get(fn.qualname, ()))
+        for c in prog.calls_in(fn):
+            for g in prog.resolve_call(c, fn):
+                if isinstance(g, Func) and g in rfuncs and not g.is_ctor_call \
+                        and g.name != '_operations_from_json':
+                    out |= classes_built(g, seen)
+        return out
     # type dispatch literals of the reader
     rd_types = {}
     from ..astpaths import cond_paths, eq_const_fact
@@ -195,6 +268,11 @@ def r16_1(ctx, rc):
                     if isinstance(g, Func) and g.is_ctor_call and \
                             g.cls_for_ctor in R.record_classes:
                         rd_types.setdefault(g.cls_for_ctor, lits[-1])
+                    elif isinstance(g, Func) and g in rfuncs and \
+                            g.name != '_operations_from_json':
+                        for K2 in classes_built(g):
+                            if len(classes_built(g)) == 1:
+                                rd_types.setdefault(K2, lits[-1])
     total = 0
     for K in R.concrete_records:
         if K not in ctor:
@@ -214,7 +292,7 @@ def r16_1(ctx, rc):
                     a = g0.attr
             wmap[key] = (a, cd, gs, v)
             W = WF
-        call, g = ctor[K]
+        call, g, rfunc = ctor[K]
         binding = prog.bind_args(call, g)
         rmap = {}
         for p, a in binding.items():
@@ -234,7 +312,7 @@ def r16_1(ctx, rc):
                 else:
                     rc.violation('field-roundtrip | ' + key,
                                  '%s is not persisted and must be read back '
-                                 'as True' % key, prog.loc(reader, call),
+                                 'as True' % key, prog.loc(rfunc, call),
                                  key=key)
                 continue
             wkeys = [k for k, (a, cd, gs, v) in wmap.items() if a == attr]
@@ -242,13 +320,22 @@ def r16_1(ctx, rc):
                 rc.violation('field-roundtrip | ' + key,
                              'no constructor parameter of %s feeds .%s in '
                              'the reader' % (K, attr),
-                             prog.loc(reader, call), key=key)
+                             prog.loc(rfunc, call), key=key)
                 continue
             p, a, reads = rmap[attr]
             # the simple record's name travels as the type discriminator
             if not reads and isinstance(a, ast.Name):
-                a2 = ctx.H.subst(a, reader, ctx.H.node_of(reader, a)[0])
+                a2 = ctx.H.subst(a, rfunc, ctx.H.node_of(rfunc, a)[0])
                 reads = _key_reads(a2)
+                if not reads and a.id in rfunc.params:
+                    # handed down by the dispatcher
+                    for caller, c2 in prog.callers().get(rfunc.qualname, []):
+                        b2 = prog.bind_args(c2, rfunc).get(a.id)
+                        if b2 is not None and not isinstance(b2, list):
+                            cn2 = ctx.H.node_of(caller, c2)
+                            if cn2:
+                                reads = reads or _key_reads(
+                                    ctx.H.subst(b2, caller, cn2[0]))
             rkeys = [r[0] for r in reads]
             if not wkeys:
                 rc.violation('field-roundtrip | ' + key,
@@ -261,7 +348,7 @@ def r16_1(ctx, rc):
                     'field-roundtrip | ' + key,
                     '.%s of %s is written under key %s but read from %s' % (
                         attr, K, wkeys, rkeys or 'no key'),
-                    prog.loc(reader, call), key=key)
+                    prog.loc(rfunc, call), key=key)
                 continue
             k = rkeys[0]
             wa, cd, gs, v = wmap[k]
@@ -310,15 +397,15 @@ def r16_1(ctx, rc):
                                     'through Enum[...]')
             if 'per-element' in cd:
                 if not any(isinstance(n, ast.Call) and any(
-                        isinstance(g2, Func) and
-                        g2.name == '_operations_from_json'
-                        for g2 in prog.resolve_call(n, reader))
+                        isinstance(g2, Func) and g2.cls == C and
+                        not g2.is_ctor_call
+                        for g2 in prog.resolve_call(n, rfunc))
                         for n in ast.walk(a)):
                     problems.append('suboperations are not read back '
                                     'through the recursive reader')
             if problems:
                 rc.violation('field-roundtrip | ' + key, '; '.join(problems),
-                             prog.loc(reader, call), key=key)
+                             prog.loc(rfunc, call), key=key)
             else:
                 rc.ok({'field': key, 'key': k,
                        'guarded': bool(gs)}, key=key)
@@ -351,12 +438,7 @@ def r16_2(ctx, rc):
     C = ctx.R.cache
     W = ctx.E.func(C + '.write')
     Rd = ctx.E.func(C + '.read_immutable')
-    dicts = [n for n in ast.walk(W.node) if isinstance(n, ast.Dict) and
-             len(n.keys) >= 4]
-    if not dicts:
-        raise AnalysisError('top-level dict of the cache file not found')
-    d = dicts[0]
-    cn = ctx.H.node_of(W, d)[0]
+    items, cn = _top_items(ctx, W)
     init = prog.lookup_method(C, '__init__')
     ctor_calls = [c for c in prog.calls_in(Rd)
                   for g in prog.resolve_call(c, Rd)
@@ -369,9 +451,8 @@ def r16_2(ctx, rc):
     for p in init.params:
         pfield[p] = _param_field(ctx, C, p)
     n = 0
-    for k, v in zip(d.keys, d.values):
-        if not isinstance(k, ast.Constant):
-            continue
+    rd_funcs = _cache_helpers(ctx, Rd)
+    for k, v in items:
         n += 1
         key = 'cache key ' + k.value
         vs = ctx.H.subst(v, W, cn)
@@ -383,11 +464,13 @@ def r16_2(ctx, rc):
         if const and isinstance(vs, ast.Attribute):
             # written from a class constant: compared with the same one
             ok = False
-            for cmp_ in ast.walk(Rd.node):
-                if isinstance(cmp_, (ast.Compare, ast.Call)):
-                    txt = ast.unparse(cmp_)
-                    if repr(k.value) in txt and (C + '.' + const) in txt:
-                        ok = True
+            for rf in rd_funcs:
+                for cmp_ in ast.walk(rf.node):
+                    if isinstance(cmp_, (ast.Compare, ast.Call)):
+                        txt = ast.unparse(cmp_)
+                        if repr(k.value) in txt and \
+                                (C + '.' + const) in txt:
+                            ok = True
             if ok:
                 rc.ok({'key': k.value, 'constant': const}, key=key)
             else:
@@ -397,7 +480,8 @@ def r16_2(ctx, rc):
                                  k.value, C, const), prog.loc(Rd, Rd.node),
                              key=key)
             continue
-        reads = [r for r in _key_reads(Rd.node) if r[0] == k.value]
+        reads = [r for rf in rd_funcs for r in _key_reads(rf.node)
+                 if r[0] == k.value]
         if reads:
             rc.ok({'key': k.value, 'read_by': Rd.qualname}, key=key)
         else:
@@ -408,8 +492,7 @@ def r16_2(ctx, rc):
         raise AnalysisError('only %d top-level keys' % n)
     # reader side: every constructor parameter restored from key k must have
     # been written from the attribute it is stored in, verbatim
-    wvals = {k.value: v for k, v in zip(d.keys, d.values)
-             if isinstance(k, ast.Constant)}
+    wvals = {k.value: v for k, v in items}
     for p, a in binding.items():
         if isinstance(a, list):
             continue
@@ -441,6 +524,62 @@ def r16_2(ctx, rc):
                     rk[0], attr, attr, ast.unparse(v)[:50],
                     sorted(str(o[:3]) for o in org)),
                 prog.loc(W, v), key=key)
+
+
+def _top_items(ctx, W):
+    """[(key constant, value expr)] of the object handed to ``json.dumps`` in
+    the cache writer, and the CFG node of the dumps call.  The object may be
+    a dict literal, ``dict(k=v)``, or a local built from one and completed
+    with ``x.update(...)`` / ``x[k] = v``."""
+    prog = ctx.prog
+    dumps = [c for c in prog.calls_in(W)
+             if 'json.dumps' in prog.resolve_call(c, W) and c.args]
+    if not dumps:
+        raise AnalysisError('top-level dict of the cache file not found '
+                            '(no json.dumps in the writer)')
+    call = dumps[0]
+    cn = ctx.H.node_of(W, call)[0]
+    arg = call.args[0]
+    items = []
+
+    def lit(e):
+        if isinstance(e, ast.Dict):
+            return [(k, v) for k, v in zip(e.keys, e.values)
+                    if isinstance(k, ast.Constant)]
+        dc = _dict_call(e)
+        if dc:
+            return [(ast.Constant(value=k), v) for k, v in dc]
+        return None
+    base = lit(arg)
+    var = None
+    if base is None and isinstance(arg, ast.Name):
+        var = arg.id
+        cfg = ctx.E.cfgs.get(W)
+        for nid in sorted(cfg.reaching_defs()[cn.id].get(var, ())):
+            v = cfg.def_value(nid, var)
+            if isinstance(v, ast.AST) and lit(v) is not None:
+                base = (base or []) + lit(v)
+    if base is None:
+        raise AnalysisError('top-level dict of the cache file not found')
+    items = list(base)
+    if var is not None:
+        for n in ast.walk(W.node):
+            if isinstance(n, ast.Call) and isinstance(
+                    n.func, ast.Attribute) and n.func.attr == 'update' and \
+                    isinstance(n.func.value, ast.Name) and \
+                    n.func.value.id == var:
+                for kw in n.keywords:
+                    if kw.arg is not None:
+                        items.append((ast.Constant(value=kw.arg), kw.value))
+                for a in n.args:
+                    items.extend(lit(a) or [])
+            elif isinstance(n, ast.Assign) and len(n.targets) == 1 and \
+                    isinstance(n.targets[0], ast.Subscript) and isinstance(
+                        n.targets[0].value, ast.Name) and \
+                    n.targets[0].value.id == var and isinstance(
+                        n.targets[0].slice, ast.Constant):
+                items.append((n.targets[0].slice, n.value))
+    return items, cn
 
 
 def _filtered(ctx, v, W, cn, depth=0):
